@@ -6,6 +6,7 @@ import (
 	"path/filepath"
 	"runtime"
 	"sync"
+	"sync/atomic"
 	"time"
 	"unsafe"
 
@@ -30,8 +31,13 @@ func runC07(c *rt.C) {
 		c07FailedRestore(c, mem)
 		return
 	}
+	if c.Index%16 == 13 {
+		closeDuringCollection(c, []string{"poison", "pageguard"}[(c.Index/16)%2])
+		c.Evals(1)
+		return
+	}
 	if c.Index%16 >= 12 {
-		closeDuringBackup(c, mem)
+		closeDuringBackup(c, []string{"poison", "pageguard"}[(c.Index/16)%2])
 		c.Evals(1)
 		return
 	}
@@ -352,6 +358,88 @@ func closeDuringBackup(c *rt.C, mem string) {
 	c.Sample(witness)
 }
 
+// closeDuringCollection: every snapshot has been closed; Close() is called while a collection worker is
+// half-way through the dead list of a retired snapshot (parked before unlinking its k-th node, resumed
+// once Close() has announced the shutdown and holds the collector flag). Nodes the worker has already
+// unlinked are no longer reachable by Close's sweep, nodes it has not reached still are: every block
+// must come back exactly once either way.
+func closeDuringCollection(c *rt.C, mem string) {
+	r := c.Rng
+	db := OpenDB(DBOpt{Mem: mem, KV: r.Intn(2) == 0})
+	nw := 1 + r.Intn(2)
+	ws := make([]*nitro.Writer, nw)
+	for i := range ws {
+		ws[i] = db.N.NewWriter()
+	}
+	nk := pick(r, 12, 50, 200)
+	for i := 0; i < nk; i++ {
+		ws[i%nw].Put(db.Item(i, "v0"))
+	}
+	snap1, _ := db.N.NewSnapshot()
+	dead := 0
+	for i := 0; i < nk; i++ {
+		if r.Intn(3) > 0 && ws[i%nw].Delete(db.Item(i, "v0")) { // cross-epoch: goes to the next snapshot's dead list
+			dead++
+			if r.Intn(4) == 0 {
+				ws[i%nw].Put(db.Item(i, "v1"))
+			}
+		}
+	}
+	snap2, _ := db.N.NewSnapshot()
+	if dead == 0 {
+		c.Inconclusive("no cross-epoch delete")
+		return
+	}
+	parkAt := int32(1 + r.Intn(dead))
+	var arrivals int32
+	parked, resume := make(chan struct{}), make(chan struct{})
+	nitro.VerifSetHook(func(id int, arg unsafe.Pointer) {
+		if id == nitro.VpWorkerBeforeUnlink && atomic.AddInt32(&arrivals, 1) == parkAt {
+			close(parked)
+			<-resume
+		}
+	})
+	defer nitro.VerifSetHook(nil)
+	snap1.Close()
+	snap2.Close() // retires snap2: its dead list goes to a collection worker
+	reached := false
+	select {
+	case <-parked:
+		reached = true
+	case <-time.After(20 * time.Second):
+	}
+	closed := make(chan struct{})
+	go func() {
+		db.N.Close()
+		close(closed)
+	}()
+	closeStarted := false
+	if reached {
+		for i := 0; i < 20000 && !closeStarted; i++ {
+			closeStarted = db.N.VerifIsGCRunning()
+			if !closeStarted {
+				time.Sleep(time.Millisecond)
+			}
+		}
+		time.Sleep(5 * time.Millisecond)
+		close(resume)
+	}
+	select {
+	case <-closed:
+	case <-time.After(60 * time.Second):
+		c.Inconclusive("Close() did not return while a collection worker was parked in the middle of a dead list and then resumed")
+		return
+	}
+	nitro.VerifSetHook(nil)
+	witness := map[string]interface{}{"mem": mem, "keys": nk, "writers": nw, "dead_list_length": dead, "worker_parked_before_unlink_no": parkAt, "worker_parked": reached, "close_started_before_resume": closeStarted, "alloc": db.A.Stats()}
+	if !reached || !closeStarted {
+		c.Inconclusive("the collection worker was not caught in the middle of the dead list")
+	}
+	reportAlloc(c, db.A, witness, "after Close() overtook a collection worker in the middle of a dead list")
+	c.Sig("close-during-collection/mem=%s/pos=%s/writers=%d", mem, posClass(int(parkAt)-1, dead), nw)
+	c.Sample(witness)
+}
+
 func reportAlloc(c *rt.C, a *galloc.Alloc, witness interface{}, where string) {
 	a.CheckQuarantine()
 	for _, v := range a.Violations() {
@@ -369,7 +457,7 @@ func init() {
 	rt.Register(&rt.Prop{
 		ID: "C07", Level: "exploration",
 		Technique: "runtime monitoring: exact per-block shadow live-set of the allocator passed through Config.UseMemoryMgmt (leak = live set non-empty after Close; double / invalid free recorded when it happens)",
-		Rule: "user-managed memory, alternating poison / pageguard. Lifecycles rotate over: contention engine (rejected Puts, same-epoch and cross-epoch deletes by several writers), ownership engine with random/newest-first/oldest-last/permuted close orders, GC() storms and scanners, the same with a trailing write phase and Close() while garbage is pending in the writers' lists, backup (delta on/off) → LoadFromDisk into a fresh instance on the same allocator (every second time with a writer created before the restore) → further mutation → Close of both, nodes chained in the library's NodeList with one of them removed and deleted in its own epoch, and Close() called while a backup is scanning (the supported shutdown path). After Close() the live set must be empty and no double/invalid free may have been recorded. " +
+		Rule: "user-managed memory, alternating poison / pageguard. Lifecycles rotate over: contention engine (rejected Puts, same-epoch and cross-epoch deletes by several writers), ownership engine with random/newest-first/oldest-last/permuted close orders, GC() storms and scanners, the same with a trailing write phase and Close() while garbage is pending in the writers' lists, backup (delta on/off) → LoadFromDisk into a fresh instance on the same allocator (every second time with a writer created before the restore) → further mutation → Close of both, nodes chained in the library's NodeList with one of them removed and deleted in its own epoch, Close() called while a backup is scanning (the supported shutdown path), and Close() called, after every snapshot was closed, while a collection worker is parked in the middle of a retired snapshot's dead list (resumed once Close holds the collector flag). After Close() the live set must be empty and no double/invalid free may have been recorded. " +
 			"evaluations = lifecycles; distinct = lifecycle configuration tuples",
 		Assumptions: []string{"every snapshot/iterator handle is closed exactly once before Close()", "failed loads are outside the statement and not judged"},
 		Cases: func(t string) int {
